@@ -558,3 +558,47 @@ func c17Inf() (string, string) {
 	}
 	return "", ""
 }
+
+// TestVerif_C17Race: the decode command with 4 workers on an RDB whose values need fixed-width
+// numbers (binary sorted-set scores, integer-encoded strings, 14-bit lengths), free-running. The
+// output must hold exactly the lines of the file; a -race build reports storage shared between
+// the workers.
+func TestVerif_C17Race(t *testing.T) {
+	defer ev.Flush("C17")
+	log.SetLevel(log.LEVEL_NONE)
+	if ev.ReplayFile() != "" {
+		return
+	}
+	si, _ := ev.ShardInfo()
+	if si != 0 {
+		return
+	}
+	raw := func(s string) rdbgen.Str { return rdbgen.RawStr([]byte(s), rdbgen.LCanon) }
+	items := []rdbgen.Item{rdbgen.SelectDB(0, rdbgen.LCanon)}
+	for i := 0; i < 300; i++ {
+		var members []rdbgen.Str
+		var scores []float64
+		for m := 0; m < 12; m++ {
+			members = append(members, raw(fmt.Sprintf("m%03d-%02d", i, m)))
+			scores = append(scores, float64(i*1000+m)+0.25)
+		}
+		items = append(items, rdbgen.Key(raw(fmt.Sprintf("zset:%03d", i)), rdbgen.ZSetVal(members, scores, true), rdbgen.KeyOpts{}))
+		items = append(items, rdbgen.Key(raw(fmt.Sprintf("int:%03d", i)), rdbgen.StringVal(rdbgen.IntStr(int64(100000+i), 32)), rdbgen.KeyOpts{}))
+	}
+	c := c17Case{Sub: "race", File: 0, Parallel: 4}
+	for round := 0; round < 3; round++ {
+		k, w := c17RunFile(c, [][]rdbgen.Item{items})
+		if k != "" {
+			if len(w) > 500 {
+				w = w[:500] + "..."
+			}
+			ev.Violate("C17|concurrent-workers|"+k, "decode with 4 workers: "+w, c)
+			break
+		}
+	}
+	ev.Eval(3)
+	ev.Trace(3)
+	ev.Trans(3)
+	ev.StatesAdd(3)
+	ev.NontrivialAdd(3)
+}
